@@ -187,6 +187,7 @@ def run(ctx):
     explicit utf8 codec.  The two agree for every locale exactly when (a) the writer names the same codec as the reader, or
     (b) the writer emits ASCII only (json.dump's default ensure_ascii=True), which every ASCII-compatible locale codec and
     utf8 decode identically."""
+    ctx.rule('R01.10', 'alignment predicates are reflexive: under y := x no `return False` is reachable before the equality shortcut (symbolic folding of each compare_* function)', floor=12)
     ctx.rule('R01.9', 'fields read from a diff entry exist for every op that the surrounding op tests still allow (field table from the op_* constructors)', floor=8)
     ctx.rule('R01.8', 'name binding: every global name a function refers to is bound at module level or builtin, and every local is assigned on every path before it is read', floor=6)
     ctx.rule('R01.7', 'every exactly resolved call binds against its callee\'s signature (no missing/unknown/surplus argument on any arm)', floor=5)
@@ -249,3 +250,5 @@ def run(ctx):
     name_binding(ctx, 'R01.8', ['nbdime.diffing.', 'nbdime.patching', 'nbdime.diff_utils', 'nbdime.diff_format', 'nbdime.nbdiffapp', 'nbdime.nbpatchapp'])
     from ..opfields import check_op_fields
     check_op_fields(ctx, 'R01.9', ['nbdime.diffing.', 'nbdime.patching', 'nbdime.diff_utils', 'nbdime.diff_format'])
+    from ..reflexive import check_reflexive
+    check_reflexive(ctx, 'R01.10')
